@@ -50,13 +50,16 @@ def _tx_key(eng, x, st):
 
 # level / notes per property; functions and lemmas come from the props tags on the contracts
 PROPS = {
-    'C19': dict(level='exploration', native=['native.c19'],
-                explanation="proved: DisconnectedRemotePeer.is_time_to_connect against the spelled-out schedule "
-                            "min(10 s * 2^k, 30 min) and the failure limit (contract, all inputs). Structural scans of the "
-                            "real source: who writes the two maps, guards of every insertion, order of removal/insertion in "
-                            "the connect / disconnect handlers, the retry gate in step(). The statement over event SEQUENCES "
-                            "(book never inconsistent, back-off over virtual time, self-connection, peer file) is carried by "
-                            "the bounded run, hence level `exploration`"),
+    'C19': dict(level='proof', native=['native.c19'],
+                explanation="the peer book's consistency (no address both connected and waiting) is proved as an invariant: "
+                            "established by NetworkManager.__init__, preserved by every writer - handle_peer_connected, "
+                            "handle_peer_disconnected, the greeting and the peer-announcement handlers, LocalPeer.disconnect - "
+                            "each verified from source against it, with a scan that nothing else writes the two maps; "
+                            "_sanity_check returns exactly when the book is consistent; the failure counter goes up by one "
+                            "exactly when an outgoing connection ends without a greeting and is reset by a greeting; "
+                            "is_time_to_connect against the spelled-out back-off schedule and limit; a greeting carrying our "
+                            "own nonce records the address as our own. Structural scan: the retry gate in step(). Event "
+                            "sequences over virtual time and the peer file are exercised by a bounded run (`bounded`)"),
     'C08': dict(level='exploration', native=['native.c08'],
                 explanation="the statement is carried by a bounded run of the real BlockStore on real sqlite files (trees with "
                             "spends, forks, reorganisation; several flush batchings; reload by a new store after every flush), "
